@@ -399,9 +399,18 @@ def check_endian(cls, t, lens, args):
     ref = W.encode(t, v, '<', bmap=bm)
     if len(le) != len(ref):
         return True          # layout differs from the reference: C01's business, not asserted here
+    # the scalar positions of the reference are used only if at least one of the two encodings has its scalars exactly
+    # there (if the property holds, either both do or neither does); otherwise it is a layout matter (C01)
+    le_ok = True
     for i, m in enumerate(bm):
         if m is not None and le[i] != ref[i]:
-            return True      # a scalar is not where the reference puts it: again a layout matter (C01)
+            le_ok = False
+            break
+    if not le_ok:
+        ref_be = W.encode(t, v, '>')
+        for i, m in enumerate(bm):
+            if m is not None and be[i] != ref_be[i]:
+                return True
     for i, m in enumerate(bm):
         if m is None:
             if le[i] != 0 or be[i] != 0:
